@@ -13,7 +13,7 @@ EXTENDS TL1Format
 CONSTANTS MaxLen,       \* maximal number of elements of a vector / dictionary
           LongStrings   \* set of extra (long) string values
 
-PrimDom(p) ==
+PrimBase(p) ==
   CASE p = "uint32"  -> {Z4, <<1, 0, 0, 0>>, <<255, 255, 255, 255>>}
     [] p = "int32"   -> {Z4, <<1, 0, 0, 0>>, <<255, 255, 255, 255>>, <<0, 0, 0, 128>>}
     [] p = "float32" -> {Z4, <<0, 0, 128, 63>>, <<0, 0, 192, 127>>, <<0, 0, 128, 255>>, <<1, 0, 0, 0>>, <<0, 0, 0, 128>>}
@@ -23,6 +23,7 @@ PrimDom(p) ==
     [] p = "byte"    -> {<<0>>, <<1>>, <<255>>}
     [] p = "string"  -> {<<>>, <<97>>, <<97, 98, 99, 100>>, <<255, 0>>, <<226, 130, 172, 34, 92, 10>>} \cup LongStrings
     [] OTHER         -> BOOLEAN
+PrimDom(p) == PrimBase(p) \cup ExtraVals(p)   \* ExtraVals: per-run extra leaf values (SchemaData), e.g. C34's byte-class strings
 
 (* dictionary keys: a small ordered domain per key type *)
 KeyDom(kt) ==
